@@ -338,6 +338,7 @@ type c01ReplayCase struct {
 	xa       string
 	bodyKind string // none bytes string func filefunc reader file
 	body     []byte
+	ga, gb   int   // body = gen.<len>.<ga>.<gb>
 	sizes    []int // read sizes of the scripted one-shot reader
 	faults   []c01Fault
 	initWin  uint32
@@ -361,7 +362,8 @@ func c01GenReplay(r *rand.Rand, proto string, i int) *c01ReplayCase {
 		if r.Intn(4) == 0 {
 			n = 1 + r.Intn(70000)
 		}
-		tc.body = c01GenBody(n, 1+r.Intn(250), r.Intn(251))
+		tc.ga, tc.gb = 1+r.Intn(250), r.Intn(251)
+		tc.body = c01GenBody(n, tc.ga, tc.gb)
 		for k, m := 0, r.Intn(5); k < m; k++ {
 			tc.sizes = append(tc.sizes, verifh.Pick(r, []int{1, 7, 512, 4096, 16384, 40000}))
 		}
@@ -609,6 +611,21 @@ func TestVerif_C01_replay(t *testing.T) {
 				s.Count(proto + ":replayed-twice")
 			}
 			s.Observe(id, ok, class, replayed, tc.human()+fmt.Sprintf(" fired=%v status=%d err=%v", fired, status, err), detail)
+			// HTTP/2, body absent or rewindable: the outcome is determined by the faults alone —
+			// judged by the Lean model of the retry loop (Req.Replay.h2Run) as well
+			if mk, det := map[string]string{"none": "none", "bytes": "rew", "string": "rew", "func": "rew", "filefunc": "rew"}[tc.bodyKind]; det && proto == "h2" {
+				var toks []string
+				for _, f := range fired {
+					toks = append(toks, map[string]string{"refused": "R", "goaway": "G", "proto": "P", "cancel": "O"}[f.kind]+fmt.Sprint(f.bytes))
+				}
+				toks = append(toks, "A")
+				impl := "failed"
+				if success && len(acc) == 1 {
+					impl = "accepted " + c01Blob(acc[0].body)
+				}
+				s.Count("h2:model-judged")
+				s.Case("c01h2retry 1 "+mk+" "+strings.Join(toks, ",")+" "+fmt.Sprintf("gen.%d.%d.%d", len(tc.body), tc.ga, tc.gb), impl, true, "", replayed, tc.human())
+			}
 		}
 		p.stop()
 	}
